@@ -364,3 +364,39 @@ pub fn knuth_shifted(r: &mut Rng) -> Option<(i128, u32, i128)> {
     if (128 - core.leading_zeros()) + sh > 126 { return None; }
     Some(((core << sh) as i128, k, m))
 }
+
+/// floor(m * 2^128 / d) for m < d/2 (so that the result is below 2^127), with the remainder flag
+fn shl128_div(m: u128, d: u128) -> (u128, bool) {
+    let mut rem = m % d;
+    let mut q: u128 = 0;
+    for _ in 0..128 {
+        rem <<= 1;
+        q <<= 1;
+        if rem >= d {
+            rem -= d;
+            q |= 1;
+        }
+    }
+    (q, rem != 0)
+}
+/// (a, k, m): the high 128-bit word of a * 10^k equals the divisor m >= 2^64 exactly (dispatch boundary between the
+/// one-step and the two-step wide division); the quotient is just above 2^128, so every result must be an overflow signal
+pub fn high_word_equals_divisor(r: &mut Rng) -> Option<(i128, u32, i128)> {
+    let k = 20 + r.below(19) as u32;                       // 10^k / 2 > 2^64
+    let d = p10(k) as u128;
+    let lim = d / 2 - 1;
+    let m: u128 = match r.below(3) { 0 => (1u128 << 64) + r.below(1000) as u128, 1 => lim - r.below(1000) as u128, _ => (1u128 << 64) + r.u128() % (lim - (1u128 << 64)) };
+    if m < (1u128 << 64) || m >= lim { return None; }
+    let (q, inexact) = shl128_div(m, d);
+    let a = q + inexact as u128 + r.below(2) as u128;      // ceil (+1: still the same high word unless d is tiny)
+    if a > MAXC as u128 { return None; }
+    Some((a as i128, k, m as i128))
+}
+/// (a, b, m) with b = 2^j: the high word of a * b equals m exactly
+pub fn high_word_equals_divisor_mul(r: &mut Rng) -> (i128, i128, i128) {
+    let j = 66 + r.below(61) as u32;                        // 66..126
+    let mbits = j - 2;                                       // m < 2^(j-2), m >= 2^64
+    let m: u128 = ((1u128 << 64) | (r.u128() >> (128 - mbits + 1))).min((1u128 << mbits) - 1);
+    let a = (m << (128 - j)) | (r.u128() & ((1u128 << (128 - j)) - 1));
+    (a as i128, 1i128 << j, m as i128)
+}
